@@ -67,9 +67,10 @@ class FixedList(Spec):
 
 
 class Loop:
-    def __init__(self, decreases=None, **clauses):
+    def __init__(self, decreases=None, types=None, **clauses):
         self.clauses = list(clauses.items())
         self.decreases = decreases
+        self.types = types or {}   # shapes for havoc of locals whose current value does not reveal them
 
 
 def contract(target, prop, name=None):
